@@ -146,7 +146,7 @@ func idOf(u tg.UpdateClass) (int, bool) {
 
 // Event is one observable action of the manager.
 type Event struct {
-	Kind string // "D" dispatch, "S" store, "A" api request, "L" too-long callback
+	Kind string // "D" dispatch, "S" store, "A" api request, "L" too-long callback, "I" channel-inaccessible callback
 	Key  string // S: pts|qts|state|c<id>|date|seq|dateseq   A: diff|chdiff<id>|getstate   L: ""|c<id>
 	Vals []int  // S: values; A: request positions
 	IDs  []int  // D: entry ids in batch order
@@ -167,6 +167,8 @@ func (e Event) String() string {
 		return "S:" + e.Key + "=" + ints(e.Vals)
 	case "A":
 		return "A:" + e.Key + "(" + ints(e.Vals) + ")"
+	case "I":
+		return "I:" + e.Key
 	}
 	if e.Key == "" {
 		return "L"
@@ -220,9 +222,12 @@ type World struct {
 	// (pts - pts_count of the first update routed to them): where their sequence starts for this client.
 	// Predicted by the harness from what it pushed / what the oracle forwarded, not read from the manager.
 	Created    map[int64]int
-	live       map[int64]bool   // channels expected to have a worker (loaded at the start, or met)
-	KnownUsers map[int64]bool   // users (Telegram ids) whose access hash the client knows
-	MetVia     map[int64]string // how a channel was met: push | common-difference | channel-difference
+	live       map[int64]bool // channels expected to have a worker (loaded at the start, or met)
+	KnownUsers map[int64]bool // users (Telegram ids) whose access hash the client knows
+	// Private: channels the account cannot access right now (their difference answers CHANNEL_PRIVATE).
+	// Removed: channels whose worker was told so since the last time they were met (it has stopped).
+	Private, Removed map[int64]bool
+	MetVia           map[int64]string // how a channel was met: push | common-difference | channel-difference
 	// Started: channels for which the manager has (or is about to have) a worker: loaded at the start,
 	// or the manager asked the storage for their pts (handleChannel does so right before starting one).
 	Started map[int64]bool
@@ -253,7 +258,7 @@ type World struct {
 func NewWorld(log []Entry, p0, q0 int, c0 map[int64]int) *World {
 	return &World{Log: log, P0: p0, Q0: q0, C0: c0, ChanTooLong: map[int64]bool{}, Extra: map[string][]int{}, FailNext: map[string]bool{}, inDiff: map[int64]bool{},
 		lastFinal: map[int64]bool{}, genuineTL: map[int64]int{},
-		Fresh: map[int64]bool{}, Late: map[int64]bool{}, Known: map[int64]bool{}, stored: map[int64]bool{}, Created: map[int64]int{}, Started: map[int64]bool{}, live: map[int64]bool{}, MetVia: map[int64]string{}, KnownUsers: map[int64]bool{}}
+		Fresh: map[int64]bool{}, Late: map[int64]bool{}, Known: map[int64]bool{}, stored: map[int64]bool{}, Created: map[int64]int{}, Started: map[int64]bool{}, live: map[int64]bool{}, MetVia: map[int64]string{}, KnownUsers: map[int64]bool{}, Private: map[int64]bool{}, Removed: map[int64]bool{}}
 }
 
 // hashUnknown: nobody can tell the client the channel's access hash right now.
@@ -281,7 +286,7 @@ func (w *World) contact(container []Entry, via string) {
 		if _, ours := w.C0[c]; !ours || w.hashUnknown(c) || w.live[c] {
 			continue
 		}
-		if !w.stored[c] {
+		if _, before := w.Created[c]; !w.stored[c] && !before {
 			low := en.Pos - en.Count
 			for _, f := range container {
 				if (f.Kind == KChMsg || f.Kind == KChOther) && f.Chan == c {
@@ -291,8 +296,16 @@ func (w *World) contact(container []Entry, via string) {
 			w.Created[c] = low
 		}
 		w.live[c] = true
+		delete(w.Removed, c)
 		w.MetVia[c] = via
 	}
+}
+
+// removed: the channel's worker was told CHANNEL_PRIVATE and the channel has not been met again.
+func (w *World) removed(c int64) bool {
+	w.mu.Lock()
+	defer w.mu.Unlock()
+	return w.Removed[c]
 }
 
 // LiveChannels: the channels the harness expects to have a worker (ascending).
@@ -436,6 +449,9 @@ func (w *World) commonDifference(pts, qts int) tg.UpdatesDifferenceClass {
 	return &tg.UpdatesDifference{NewMessages: msgs, NewEncryptedMessages: enc, OtherUpdates: others, State: st, Users: users}
 }
 
+// privateAnswer stands for the RPC error CHANNEL_PRIVATE.
+var privateAnswer tg.UpdatesChannelDifferenceClass = &tg.UpdatesChannelDifferenceEmpty{Pts: -1}
+
 // channelDifference answers updates.getChannelDifference(channel, pts).
 func (w *World) channelDifference(c int64, pts int) tg.UpdatesChannelDifferenceClass {
 	w.mu.Lock()
@@ -448,6 +464,14 @@ func (w *World) channelDifference(c int64, pts int) tg.UpdatesChannelDifferenceC
 		delete(w.FailNext, seq)
 		w.Served = append(w.Served, Served{Seq: seq, Kind: "error"})
 		return nil
+	}
+	if w.Private[c] {
+		// CHANNEL_PRIVATE: the worker reports it, asks the main loop to forget the channel and stops
+		w.Served = append(w.Served, Served{Seq: seq, Kind: "private"})
+		delete(w.live, c)
+		delete(w.Started, c)
+		w.Removed[c] = true
+		return privateAnswer
 	}
 	if w.ChanTooLong[c] {
 		w.ChanTooLong[c] = false
@@ -608,6 +632,7 @@ func (s *Store) GetChannelPts(_ context.Context, _, channelID int64) (int, bool,
 	// only handleChannel asks, right before it starts the channel's worker
 	s.env.W.mu.Lock()
 	s.env.W.Started[channelID] = true
+	delete(s.env.W.Removed, channelID) // a new worker: barriers go through it again
 	s.env.W.mu.Unlock()
 	s.mu.Lock()
 	defer s.mu.Unlock()
